@@ -222,16 +222,20 @@ Definition rewrite_inst (x : inst) : result inst :=
   Ok {| i_name := i_name x; i_n := i_n x; i_of := i_of x; i_conns := cs ++ added_conns x |}.
 End Rewrite.
 
-Definition portrefs_module : result module :=
+(* the groups' universe and the signals the pass creates: (leaf id, what it is for, its name) *)
+Definition pr_table : result (list key * list (N * alloc * name)) :=
   keys <- all_keys ;;
   allocs <- plan keys seeds [] ;;
   names <- alloc_names (map a_base allocs) namespace ;;
-  let table := number_allocs (combine allocs names) next_leaf in
-  insts <- traverse (rewrite_inst keys table) (m_insts m) ;;
+  Ok (keys, number_allocs (combine allocs names) next_leaf).
+
+Definition portrefs_module : result module :=
+  kt <- pr_table ;;
+  insts <- traverse (rewrite_inst (fst kt) (snd kt)) (m_insts m) ;;
   Ok {| m_name := m_name m; m_ports := m_ports m;
-        m_sigs := m_sigs m ++ map (fun e => (snd e, a_width (snd (fst e)))) table;
+        m_sigs := m_sigs m ++ map (fun e => (snd e, a_width (snd (fst e)))) (snd kt);
         m_insts := insts;
-        m_leaves := m_leaves m ++ map (fun e => (fst (fst e), LSig (snd e))) table |}.
+        m_leaves := m_leaves m ++ map (fun e => (fst (fst e), LSig (snd e))) (snd kt) |}.
 End PortRefs.
 
 Definition map_modules (f : module -> result module) (d : design) : result design :=
